@@ -84,7 +84,7 @@ func runBufferScenario(sc *Scenario) *RunData {
 					rd.violate("C08/delivered-twice", fmt.Sprintf("item %#x (reader %d, add #%d) was delivered %d times", id, id>>20, id&0xfffff, delivered[id]))
 				}
 			}
-			simrt.ProbeN("c08.delivered", len(batch))
+			probeN("c08.delivered", len(batch))
 		}
 		var ts []*simrt.Task
 		for c, ops := range sc.Clients {
@@ -117,7 +117,7 @@ func runBufferScenario(sc *Scenario) *RunData {
 			return
 		}
 		if t-h >= bufCap {
-			simrt.Probe("c08.full-at-quiescence")
+			probe("c08.full-at-quiescence")
 		}
 		// liveness once the burst is over: a single reader must get a batch
 		// within a bounded number of further hits
@@ -212,7 +212,7 @@ func checkC08(rd *RunData) []Violation {
 		}
 	}
 	if hits < 4*bufCap {
-		simrt.Probe("c08.epilogue-key-not-resident")
+		probe("c08.epilogue-key-not-resident")
 		return nil
 	}
 	var vs []Violation
